@@ -194,8 +194,13 @@ class ScriptRunner(object):
             if not line.startswith('#$'):
                 return
 
-            for assignment in line[3:].split(','):
-                k, v = assignment.split('=')
+            # The directives follow the two characters of the magic comment, with or
+            # without blanks in between. A comment that merely starts with the same
+            # two characters has no "name = value" and is just a comment.
+            for assignment in line[2:].split(','):
+                if '=' not in assignment:
+                    continue
+                k, v = assignment.split('=', 1)
                 k = k.strip()
                 if k in self.pragma:
                     self.pragma[k] = ast.literal_eval(v.strip())
